@@ -402,22 +402,9 @@ def hazards_resolve(prog):
 
 
 def hazards_norm(prog):
-    """normalize_array_shape_and_access: a section with a stride / an open bound on a dimension whose declared lower bound is not 1"""
-    out = set()
-    for u in prog[2:]:
-        decls = _decl_map(u)
-
-        def fe(e):
-            if _h(e) == 'sec' and str(e[1]) in decls:
-                for d, b in zip(e[2:], decls[str(e[1])][4]):
-                    if _h(d) == 'rng' and not _is_lit1(b[0]):
-                        if not _is_none(d[3]):
-                            out.add('KnownNormStride')
-                        if _is_none(d[1]) or _is_none(d[2]):
-                            out.add('KnownNormOpen')
-            return e
-        fir.map_program([prog[0], prog[1], u], fe)
-    return out
+    """normalize_array_shape_and_access: no known class left (KnownNormStride and KnownNormOpen were repaired by fix: commits;
+    a section now keeps its own stride and its open ends)"""
+    return set()
 
 
 def hazards_print(prog):
@@ -440,8 +427,7 @@ def hazards_print(prog):
     return out
 
 
-CLASS_ORDER = ('KnownOpenRange', 'KnownLoopVarReuse', 'KnownStride', 'KnownOverlap', 'KnownNormStride', 'KnownNormOpen',
-               'KnownPrintOpaque')
+CLASS_ORDER = ('KnownOpenRange', 'KnownLoopVarReuse', 'KnownStride', 'KnownOverlap', 'KnownPrintOpaque')
 
 
 def classify(op, prog):
@@ -1115,13 +1101,14 @@ class C30(Prop):
     findings_module = 'LokiModel.Findings.C30'
     driver = 'Drivers/C30.lean'
     theorems = ['resolve_sound_partial', 'flatten_bijective', 'flatten_bijective_C', 'invert_indices', 'shift_to_zero',
-                'normalize_shift', 'c_pipeline_index', 'offset_eq_flat', 'offset_isSome_iff', 'flatF_one_eq']
+                'normalize_shift', 'normalize_section', 'c_pipeline_index', 'offset_eq_flat', 'offset_isSome_iff', 'flatF_one_eq']
     design_ref = 'DESIGN.md 4.F C30'
     level = 'proof'
     level_text = ('Theorems (Lean kernel). FULL STRENGTH, every rank, all integers: flatten_bijective / flatten_bijective_C (the subscript '
                   'built by flatten_arrays.new_dims, order F and C, any start_index, lands in [s, s+size), is injective on the declared box and '
                   'onto), invert_indices (reversing dimension order is a bijection of the boxes), shift_to_zero, normalize_shift (i -> i-1 and '
-                  'i -> i-lo+1 are bijections onto the 0-/1-based box), c_pipeline_index + offset_eq_flat + offset_isSome_iff (the composite '
+                  'i -> i-lo+1 are bijections onto the 0-/1-based box), normalize_section (a section shifted with its stride kept has the same '
+                  'trip count and the shifted elements: full strength since the fix: commits for KnownNormStride/KnownNormOpen), c_pipeline_index + offset_eq_flat + offset_isSome_iff (the composite '
                   'normalise/invert/shift/flatten(C,0) subscript is the column-major offset the FIR semantics itself uses). '
                   'PARTIAL: resolve_sound_partial — statement level, rank 1: for every state without ASSOCIATE names that fits the declarations and every '
                   'section assignment a(lo:hi:step) = rhs whose right-hand side is in the decidable class covE (does not read a or the loop '
@@ -1239,6 +1226,12 @@ class C30(Prop):
         if t[0] != 'ok':
             if t[1].startswith('frontend'):
                 return [Failure(f'harness: generated source does not parse ({t[1]})', None, error=True)]
+            if t[1].startswith('export'):
+                # strictness for the shrinker: the UNTRANSFORMED text must export, else the request itself is outside FIR
+                try:
+                    fir.export_unit(fir.parse_fortran(fir.emit_fortran(prog, wrap_program=False)), main=fir.prog_main(prog))
+                except Exception:
+                    raise ValueError('request outside FIR: the original program does not round-trip')
             return [Failure(f'{op}: transformation failed or produced code outside Fortran/FIR: {t[1]}', cls)]
         tprog = t[1]
         bad = wf_do(tprog)
